@@ -22,7 +22,9 @@ Record case_t := Case {
   c_open_ok : bool;              (* bpch1 opened and every tracer variable could be read *)
   c_view : view;                 (* what it presented (empty when it raised) *)
   c_wrote : bool;                (* ncf2bpch ran *)
-  c_written : list word          (* what it wrote *)
+  c_written : list word;         (* what it wrote *)
+  c_b2_ok : bool;                (* mode 2: bpch2 opened and every variable could be read *)
+  c_view2 : view2                (* mode 2: what bpch2 presented *)
 }.
 
 Definition tunit_eqb (a b : tunit) : bool :=
@@ -52,11 +54,27 @@ Definition view_match (scaled : bool) (m o : view) : bool :=
 Definition res_match (scaled : bool) (r : result view) (ok : bool) (o : view) : bool :=
   match r with Ok v => ok && view_match scaled v o | Err => negb ok end.
 
+(* mode 2 (second reader): the reference-encoded file through bpch1 AND bpch2, both without scaling *)
+Definition view2_eqb (a b : view2) : bool :=
+  zlist_eqb (s_ftype a) (s_ftype b) && zlist_eqb (s_title a) (s_title b) && list_eqb var_eqb (s_vars a) (s_vars b)
+  && zll_eqb (s_taus a) (s_taus b) && zlll_eqb (s_data a) (s_data b).
+Definition agree_b (v1 : view) (v2 : view2) : bool :=
+  zlist_eqb (s_ftype v2) (r_ftype v1) && zlist_eqb (s_title v2) (r_title v1)
+  && list_eqb var_eqb (s_vars v2) (map no_resv (r_vars v1))
+  && zll_eqb (s_taus v2) (r_taus v1)
+  && zlll_eqb (s_data v2) (map (data_of_var v1) (r_vars v1)).
+
 Definition given (c : case_t) : list word := if c_mal c then c_ws c else c_ref c.
 
 Definition checkF (c : case_t) : bool :=
   zlist_eqb (enc (c_f c)) (c_ref c)
-  && if c_mode c =? 0 then
+  && if c_mode c =? 2 then
+       res_match false (impl_open (c_T c) (c_D c) (c_ref c) (4 * lenZ (c_ref c))) (c_open_ok c) (c_view c)
+       && match impl_bpch2 (c_T c) (c_D c) (c_ref c) (4 * lenZ (c_ref c)) with
+          | Ok v2 => c_b2_ok c && view2_eqb v2 (c_view2 c)
+          | Err => negb (c_b2_ok c)
+          end
+     else if c_mode c =? 0 then
        let r := impl_open (c_T c) (c_D c) (given c) (c_size c) in
        res_match (c_scaled c) r (c_open_ok c) (c_view c)
        && match r with
@@ -88,13 +106,15 @@ Definition prefix_ok (c : case_t) : bool :=
              (seq 1 (length (tb0 f) - 1)).
 
 Definition checkS (c : case_t) : bool :=
+  if c_mode c =? 2 then c_open_ok c && c_b2_ok c && agree_b (c_view c) (c_view2 c) else
   if c_mal c then (if is_cut c then prefix_ok c else true) else
   c_open_ok c && view_match (c_scaled c) (view_of (c_T c) (c_D c) (c_f c)) (c_view c)
   && (if (c_mode c =? 0) && negb (c_scaled c) then c_wrote c && zlist_eqb (c_written c) (given c) else true)
   && (if c_mode c =? 0 then true else c_wrote c).
 
-(* every case evaluated here is inside the proved domain; region 1 (bpch2 cannot run) is decided by the Python
-   oracle on the cases that are not evaluated in Coq *)
-Definition region (c : case_t) : nat := 0%nat.
+(* region 1 = the second reader on tables that lack the category or the tracer number (finding
+   C18-bpch2-missing-table-entry); everything else is inside the proved domain *)
+Definition region (c : case_t) : nat :=
+  if (c_mode c =? 2) && negb (tables_complete (c_T c) (c_D c) (c_f c)) then 1%nat else 0%nat.
 
 Definition check (c : case_t) : verdict := (checkF c, checkS c, region c).
